@@ -152,6 +152,8 @@ def render_tab(sess, verbose=False):
             if f["k"] != "use":
                 shapes.add(it["cls"])
                 shapes.add("rejected:%s:%s:%s" % (f["k"], f["n"] or "+".join(f["ds"]), f["t"]))
+                if it["re2"]:
+                    shapes.add("redefinition-after-refused-redefinition")
                 if it["lib"]:
                     shapes.add("rejected-form-first-mentions-library-type")
                 if it["cls"] == "redeclaration-other-type":
